@@ -113,6 +113,8 @@ def c07_file(draw):
             s["width"] = "0.25"
     f = {"stmts": stmts}
     f.update(G.file_flags(draw))
+    # the declarations are those of the text, whether or not charge-conjugate tables are asked for
+    f["cc_off"] = draw(st.sampled_from((False, False, False, True)))
     return f
 
 
@@ -136,7 +138,7 @@ def check_case(f, rec):
     text = G.render(f)
     want = R.declarations(f)
     # C07 is about the declaration queries; conjugate tables are C03's subject (avoid warnings/time only)
-    p = make_parser(text, ID)
+    p = make_parser(text, ID, include_cc=not f.get("cc_off"))
     for q in QUERIES:
         w = want[q]
         try:
